@@ -556,6 +556,30 @@ def run_shard(ctx, desc):
             if not run_property(ctx, sampler_spec(probe=pr), body, 4, tag="probe", bucket="sampler"):
                 return
             ctx.sample({"probe": {"envelope": pr[0], "points": pr[1], "index": pr[2]}})
+        # an envelope without any point (or switched off and otherwise untouched) next to envelopes holding what the
+        # pre-envelope instrument fields could not hold
+        odd = {"points": [[0, 100], [64, -4321], [200, 7], [300, 16383]], "enable": True, "sustain": True, "loop": False, "ctl_index": 0, "gain_pct": 100, "velocity": 0, "sustain_point": 2, "loop_start_point": 0, "loop_end_point": 3}
+        many = dict(odd, points=[[i * 3, (i * 517) % 0x4000] for i in range(20)], sustain_point=19)
+
+        def with_companions(empty_which, others):
+            def f(ms):
+                envs = ms["payload"].setdefault("envelopes", {})
+                for w, e_ in others.items():
+                    envs[w] = dict(e_) if w != "volume" else dict(e_, points=[[x, abs(y)] for x, y in e_["points"]])
+                if empty_which:
+                    base_ = dict(odd, points=[], enable=False, sustain=False, sustain_point=0, loop_end_point=0)
+                    envs[empty_which] = base_
+                return ms
+
+            return f
+
+        for empty_which in ("volume", "panning", "pitch", None):
+            for others in ({"panning": odd}, {"panning": many}, {"volume": odd, "panning": odd}, {"pitch": odd, "fx0": many}):
+                if empty_which in others:
+                    continue
+                if not run_property(ctx, sampler_spec().map(with_companions(empty_which, others)), body, 3, tag="probe_empty_envelope", bucket="sampler"):
+                    return
+        ctx.label("envelope_without_points_next_to_full_ones")
         return
 
     def body(ms):
